@@ -20,14 +20,25 @@ MAX_BLOCKS = 80
 _vocab = None
 
 
+_vocab_doc = None
+
+
+def vocabulary_doc():
+    global _vocab_doc
+    if _vocab_doc is None:
+        try:
+            with open(VOCAB_FILE) as fh:
+                _vocab_doc = json.load(fh)
+        except OSError:
+            _vocab_doc = {}
+    return _vocab_doc
+
+
 def vocabulary():
     global _vocab
     if _vocab is None:
-        try:
-            with open(VOCAB_FILE) as fh:
-                _vocab = set(json.load(fh)["functions"])
-        except OSError:
-            _vocab = None
+        d = vocabulary_doc()
+        _vocab = set(d["functions"]) if d.get("functions") else None
     return _vocab
 
 
